@@ -8,7 +8,7 @@ from . import common
 
 ID = 'C16'
 LEVEL = 'exploration'
-BUDGET = {'quick': (7000, 80.0), 'thorough': (120000, 1500.0)}
+BUDGET = {'quick': (5000, 80.0), 'thorough': (120000, 1500.0)}
 CHUNK = 20
 RULE = ('a DM1 sender (Dm1.start_send with cycle 50 ms..2 s) whose callback supplies, per cycle, lamp states from all 5^4 combinations and 1..400 trouble codes with '
         'SPN/FMI/OC over their full ranges (boundaries over-weighted); 1-2 receiver stacks with Dm1.subscribe and a raw listener; both data link layers so the message '
@@ -61,7 +61,7 @@ def generate(rng, tier, i):
             hist.append({'op': 'stop'})
             hist.append({'op': 'wait', 'ms': int(cyc * rng.choice([1.2, 2.5]))})
     scn = {'kernel': gen.draw_kernel(rng), 'latency': gen.draw_latency(rng, not fd, [s['name'] for s in stacks]), 'stacks': stacks, 'ndtc': n,
-           'content_seed': rng.randrange(1 << 20), 'history': hist,
+           'content_seed': rng.randrange(1 << 20), 'history': hist, 'reuse_objects': rng.random() < 0.4,
            'dm22': [{'act': rng.random() < 0.5, 'spn': rng.choice(SPNS + [rng.getrandbits(19)]), 'fmi': rng.getrandbits(5), 'dest': rng.choice([0x50, 255])}
                     for _ in range(rng.choice([0, 1, 2]))]}
     return scn
@@ -96,12 +96,20 @@ def execute(scn, keep_log=False, hook=None):
         sub_calls[r.name] = []
         d.subscribe(lambda sa, lamps, dtcs, ts, name=r.name: sub_calls[name].append((sim.now, sa, dict(lamps), [dict(x) for x in dtcs])))
 
+    live_lamps, live_dtcs = {}, []
+
     def supplier():
         k = len(invocations)
         lamps, dtcs = content(scn['content_seed'], k, n)
         invocations.append((sim.now, k, lamps, dtcs))
         stats['dm1_cycles'] += 1
         stats['spn_above_16bit'] += sum(1 for x in dtcs if x['spn'] > 0xFFFF)
+        if scn.get('reuse_objects'):
+            # an application that keeps one lamp dict and one code list and updates them in place
+            live_lamps.clear()
+            live_lamps.update(lamps)
+            live_dtcs[:] = [dict(x) for x in dtcs]
+            return live_lamps, live_dtcs
         return dict(lamps), [dict(x) for x in dtcs]
 
     # ---- bus monitor: instants at which a *new* DM1 message starts
